@@ -281,7 +281,7 @@ def limit_exits(ctx, s, fn, filt):
     ctx.instances["C05.limit-exits"] = n
     other_exits(ctx, s, fn, filt)
     # assignments to the moving `since`
-    since_locals = [i for i, l in enumerate(fn.locals) if l.get("n") == "since"]
+    since_locals = [i for i, l in enumerate(fn.locals) if l.get("n") == "since" and "inl" not in l]
     cnt = 0
     for (b, i), v in sorted(an.stmt_val.items(), key=lambda kv: (kv[0][0], str(kv[0][1]))):
         L = an.stmt_loc.get((b, i))
@@ -346,6 +346,19 @@ def other_exits(ctx, s, fn, filt):
                 continue        # iterator exhausted
             if ec is not None and ec[0] == "switch" and contains_value(ec[1], is_limit):
                 continue        # limit exit (judged above)
+            # the same two reasons when the decision was computed first and tested afterwards (a helper returning
+            # "stop now", a flag): what became true inside this iteration on every way into this exit
+            since_header = {repr(f) for f in ctx.E.facts(fn, H)}
+            inner = [f for f in ctx.E.facts(fn, e.node) if repr(f) not in since_header]
+            lim = False
+            for f in inner:
+                if f[0] == "le":
+                    pos = [a for a, k in f[1][1] if k > 0 and contains_value(a, is_limit)]
+                    neg = [a for a, k in f[1][1] if k < 0]
+                    if pos and neg:
+                        lim = True      # limit <= count
+            if lim:
+                continue
             if any((relation(f) or ("",))[0] == "<" and contains_value(relation(f)[1], lambda x: x[0] == "call" and x[1].endswith("::created_at"))
                    for f in facts):
                 continue        # older than `since`: everything further is older still
